@@ -61,7 +61,7 @@ def run(ctx):
     cases.append(("style", s, G.shape_doc(s), cfgs))
 
   # 3. code -> spec: random documents
-  ndocs = 2500 if thorough else 70
+  ndocs = 2500 if thorough else 300
   for _ in range(ndocs):
     adoc = G.random_doc(ctx.rng, rich=True)
     if thorough:
